@@ -1,8 +1,11 @@
 // Package c07: run numbers are unique and strictly increasing.
 //
-// Input  : (n (raft entry) sched)
+// Input  : (n (raft entry) sched)  |  (n (raft entry) sched (svc k))
 //
 //	n      number of callers (ids 0..n-1), each makes ONE call of the real code
+//	(svc k) route: caller c calls NewRunNumber on local.Service number c mod k — k = 1 is ONE
+//	       apricot instance serving every caller, so calls overlap inside one Service object
+//	       (absent: a Service / ConsulSource of its own per slot c mod 4, see exec.go)
 //	entry  - | (raw idx)                         -- the Consul key before the schedule
 //	sched  ((r c) | (w c) | (e c) | (f raw) | (d) | (x c))*
 //	         r c  Consul answers c's consistent GET (c is launched here)
@@ -189,6 +192,37 @@ func storeNode(raft uint64, raw string, idx uint64, present bool) *sx.Node {
 
 func mkInput(n int, store *sx.Node, sched []*sx.Node) string {
 	return sx.L(sx.I(n), store, sx.L(sched...)).String()
+}
+
+func routeNode(k int) *sx.Node { return sx.L(sx.A("svc"), sx.I(k)) }
+
+// mkInputR: route == nil gives the three-element form.
+func mkInputR(n int, store *sx.Node, sched []*sx.Node, route *sx.Node) string {
+	if route == nil {
+		return mkInput(n, store, sched)
+	}
+	return sx.L(sx.I(n), store, sx.L(sched...), route).String()
+}
+
+// routed re-issues cases with every caller going through `k` shared local.Service instances
+// (class exercised: calls that OVERLAP INSIDE one Service object — whatever NewRunNumber does
+// around the protocol call — coalescing, caching, handing one caller's answer to another —
+// happens between such calls and nowhere else).
+func routed(cs []fw.Case, k int) []fw.Case {
+	out := make([]fw.Case, 0, len(cs))
+	for _, c := range cs {
+		in, err := sx.Parse(c.Input)
+		if err != nil || len(in.List) != 3 {
+			continue
+		}
+		tags := make([]string, 0, len(c.Tags)+1)
+		for _, t := range c.Tags {
+			tags = append(tags, fmt.Sprintf("svc%d:", k)+t)
+		}
+		tags = append(tags, fmt.Sprintf("route=svc%d", k))
+		out = append(out, fw.Case{Input: mkInputR(in.At(0).Int(), in.At(1), in.At(2).List, routeNode(k)), Tags: tags})
+	}
+	return out
 }
 
 // interleavings enumerates all merges of n programs [r c, w c, … (ws times)]. ws = 1 is the real
@@ -397,7 +431,16 @@ func genRandom(r *rng.R, maxCallers, maxLen int) fw.Case {
 	if faults {
 		tags = append(tags, "crash-or-http-fault")
 	}
-	return fw.Case{Input: mkInput(n, store, sched), Tags: append([]string{"random"}, tags...)}
+	// a third of the schedules run with the callers sharing 1..3 Service instances
+	var route *sx.Node
+	if r.P(1, 3) {
+		k := rng.Pick(r, []int{1, 1, 1, 2, 2, 3})
+		route = routeNode(k)
+		tags = append(tags, fmt.Sprintf("route=svc%d", k))
+	} else {
+		tags = append(tags, "route=slots")
+	}
+	return fw.Case{Input: mkInputR(n, store, sched, route), Tags: append([]string{"random"}, tags...)}
 }
 
 var exhStores = []*sx.Node{storeNode(0, "", 0, false), storeNode(7, "41", 5, true)}
@@ -414,8 +457,17 @@ func generate(tier string, r *rng.R) []fw.Case {
 	cs = append(cs, longPrograms(3, 2, exhStores[1:], "exh:n=3,r+2w")...)
 	cs = append(cs, exhaustive(2, 1, wrapStores, "exh:n=2,+1ev,wrap-region")...)
 	cs = append(cs, exhaustive(3, 0, wrapStores, "exh:n=3,wrap-region")...)
+	// the same, with the callers inside ONE apricot instance (two for n = 4): overlapping calls on one Service
+	cs = append(cs, routed(exhaustive(2, 1, exhStores, "exh:n=2,+1ev"), 1)...)
+	cs = append(cs, routed(exhaustive(3, 0, exhStores, "exh:n=3"), 1)...)
+	cs = append(cs, routed(exhaustive(4, 0, exhStores[1:], "exh:n=4"), 2)...)
+	cs = append(cs, routed(longPrograms(2, 3, exhStores[1:], "exh:n=2,r+3w"), 1)...)
+	cs = append(cs, routed(exhaustive(2, 0, wrapStores, "exh:n=2,wrap-region"), 1)...)
 	nRandom, maxCallers, maxLen := 6000, 8, 30
 	if tier == "thorough" {
+		cs = append(cs, routed(exhaustive(2, 2, exhStores, "exh:n=2,+2ev"), 1)...)
+		cs = append(cs, routed(exhaustive(3, 1, exhStores, "exh:n=3,+1ev"), 1)...)
+		cs = append(cs, routed(exhaustive(4, 0, exhStores, "exh:n=4"), 1)...)
 		cs = append(cs, exhaustive(2, 2, exhStores, "exh:n=2,+2ev")...)
 		cs = append(cs, exhaustive(3, 2, exhStores[1:], "exh:n=3,+2ev")...)
 		cs = append(cs, exhaustive(4, 1, exhStores[1:], "exh:n=4,+1ev")...)
@@ -438,6 +490,9 @@ func generate(tier string, r *rng.R) []fw.Case {
 // schedules, then random ones.
 func search(r *rng.R) []fw.Case {
 	var cs []fw.Case
+	cs = append(cs, routed(exhaustive(2, 0, exhStores, "search:n=2"), 1)...)
+	cs = append(cs, routed(exhaustive(3, 0, exhStores[1:], "search:n=3"), 1)...)
+	cs = append(cs, routed(longPrograms(2, 3, exhStores, "search:n=2,r+3w"), 1)...)
 	cs = append(cs, longPrograms(2, 3, exhStores, "search:n=2,r+3w")...)
 	cs = append(cs, longPrograms(2, 4, exhStores[1:], "search:n=2,r+4w")...)
 	cs = append(cs, longPrograms(3, 2, exhStores, "search:n=3,r+2w")...)
@@ -496,9 +551,13 @@ func shrinkCands(input string) []string {
 	var out []string
 	n := in.At(0).Int()
 	steps := in.At(2).List
+	var route *sx.Node
+	if len(in.List) >= 4 {
+		route = in.At(3)
+	}
 	for i := range steps {
 		s := append(append([]*sx.Node{}, steps[:i]...), steps[i+1:]...)
-		out = append(out, mkInput(n, in.At(1), s))
+		out = append(out, mkInputR(n, in.At(1), s, route))
 	}
 	if n > 1 {
 		used := false
@@ -508,8 +567,14 @@ func shrinkCands(input string) []string {
 			}
 		}
 		if !used {
-			out = append(out, mkInput(n-1, in.At(1), steps))
+			out = append(out, mkInputR(n-1, in.At(1), steps, route))
 		}
+	}
+	if route != nil {
+		if k := route.At(1).Int(); k > 1 {
+			out = append(out, mkInputR(n, in.At(1), steps, routeNode(k-1)))
+		}
+		out = append(out, mkInput(n, in.At(1), steps)) // without the route (shorter text)
 	}
 	return out
 }
@@ -527,7 +592,13 @@ func init() {
 			"thorough adds (3,2) (4,1) (5,0) from \"41\"; (2,<=1) and (3,0) at 2^32-2 and 2^32-1; n=2 with 3 and n=3 with 2 `w` steps per caller " +
 			"(no-ops for the real protocol; they drive variants that send more requests per call). RANDOM: 6000 (thorough 100000) schedules, " +
 			"1..8 (12) callers, <=30 (60) steps, foreign writes (65% non-lowering, 20% lowering, 15% junk), deletes, crashes, HTTP failures, " +
-			"no-op steps, initial key absent/number/near-wrap/junk. non-trivial = >=2 calls launched, >=1 number handed out and the calls " +
+			"no-op steps, initial key absent/number/near-wrap/junk. ROUTES: by default caller c uses slot c mod 4 (even: a local.Service of its own, " +
+			"odd: ConsulSource directly); with the 4th input element (svc k) caller c calls NewRunNumber on Service c mod k, so calls OVERLAP INSIDE one " +
+			"Service object (k=1: one apricot instance serves everybody, as in production): exhaustive (2,<=1) (3,0) from both stores, (2,0) in the wrap " +
+			"region, n=2 with 3 `w` steps on one instance, (4,0) on two instances (thorough: (2,2) (3,1) (4,0) on one), a third of the random schedules " +
+			"on 1..3 instances, 7 corpus lines. A caller that shows no event within the ceiling is set aside; if it later RETURNS without any request " +
+			"having reached the simulator it is recorded as answered with no request of its own (Spec clause ownWrite rejects a number obtained so); " +
+			"every ambiguity or ceiling is inconclusive. non-trivial = >=2 calls launched, >=1 number handed out and the calls " +
 			"were disturbed (refused CAS, error, dead/pending caller or foreign write/delete); distinct by input text." + envRule,
 		Shrink:   shrinkCands,
 		Search:   search,
@@ -536,7 +607,7 @@ func init() {
 		Teardown: teardown,
 		TrustedBase: []string{
 			"harness/props/c07 Consul KV simulator (consul.go): index per write, cas semantics of kvsSetCASTxn, linearizable consistent GET",
-			"harness/props/c07 controller (exec.go): one caller runs at a time, so requests are attributed without tagging",
+			"harness/props/c07 controller (exec.go): one caller runs at a time, so requests are attributed without tagging; a caller without any event within the ceiling is set aside and only its later RETURN (an event) is used — no request at all may reach the simulator while such a caller is out, else the case is inconclusive",
 			"github.com/hashicorp/consul/api client (real, unmodified) and net/http on loopback",
 			"environment-level stream: harness/envh (environment builder, probe plugin, event capture, scripted task-level bodies — the scripted START body resets currentRunNumber on failure as StartActivityTransition.do does) and the verif hooks it uses in /repo; apricot's mock:// (file) branch of NewRunNumber stands in for one undisturbed call of the protocol",
 		},
